@@ -75,14 +75,18 @@ def parse_twitter_url(url):
     if not is_twitter_url(url):
         return None
 
-    parsed = safe_urlsplit(url)
+    try:
+        parsed = safe_urlsplit(url)
+    except ValueError:
+        return None
+
     path = pathsplit(parsed.path)
 
     if path:
         user_screen_name = normalize_screen_name(path[0])
 
         if user_screen_name is None:
-            if path[0] == "i" and path[1] == "lists" and len(path) == 3:
+            if len(path) == 3 and path[0] == "i" and path[1] == "lists":
                 return TwitterList(id=path[2])
             return None
 
